@@ -47,6 +47,11 @@ EMPHASIS = {
   (b) one must depend on HISTORY: something done by an earlier call (a previous load or dump with the same or with another generated function, an earlier failure, creation order of functions, registration order of classes, an earlier document) changes what a later call does;
   (c) one must affect only a narrow slice of VALUES rather than shapes (particular numbers, strings that look like other YAML types, empty collections, non-ASCII text, long or deeply nested data, special floats, keys that need quoting, ...).
 Look beyond the functions named in the anchors - at the code they call and at the rarely used kinds of classes, types and YAML features that the library's documentation says it supports.''',
+    5: '''Make them DIFFERENT IN KIND from a one-line slip in the most obvious function, and different from each other:
+  (a) one change must be in how yatiml USES PyYAML (the composer / resolver / constructor / representer / serializer / emitter machinery it builds on: node objects and their tags and marks, the implicit resolver tables, generator-style constructors that PyYAML resumes later, represented_objects and alias keys, anchors, flow/block styles, multi-document streams) - a wrong assumption about what PyYAML does, or about when it does it;
+  (b) one must be in how yatiml INSPECTS PYTHON types and classes (typing generics and their __origin__/__args__, Optional/Union normalisation and member order, nested generics, inspect.signature / getfullargspec, defaults, keyword-only or positional-only parameters, dataclasses, enums and enum aliases, ABCs, classes that inherit __init__, str/UserString subclasses, __dict__ versus hasattr) - a case that one of these reports differently from what the code assumes;
+  (c) one must be on an ERROR or CLEAN-UP path: what happens after something failed (an exception converted or swallowed too broadly or too narrowly, a message built from the wrong node, state or a resource not restored after a failure, a fallback branch that is taken in one more case than intended).
+Look beyond the functions named in the anchors - at the code they call and at the rarely used kinds of classes, types and YAML features that the library's documentation says it supports.''',
 }
 
 
